@@ -1,9 +1,11 @@
 (* C06 — parameterised rendering is equivalent to inline rendering.
    Model: Param.v (token renderer over the shared Terms.term AST, threaded through the collector state; statement
    layer with the clause order of QueryBuilder.get_sql regenerated into gen/C06Table.v).
-   The full statement is REFUTED on the faithful model (None / Decimal collected as text, expression values of
-   set() collected as SQL text); its bookkeeping half holds for every statement without expression-valued SET, and
-   the whole statement holds on the fragment described by [lit_exact]. *)
+   The statement over ALL value types is still REFUTED on the faithful model by one class of payloads: numbers that
+   are neither int nor float (Decimal) are collected as their text.  Under the value guard "no such payload is
+   collected" the whole statement is PROVED for every statement and every collector class (C06_holds); its
+   bookkeeping half holds without the guard.  (None collected as the string 'null' and set(field, <expression>)
+   collected as SQL text were repaired in pypika 3c2a8b6 / c10cc28; the model follows the repaired code.) *)
 From PV Require Import Base Crit gen.TermsTable Terms gen.C06Table Param.
 From PV Require Import lemmas.ParamInline lemmas.ParamSim lemmas.ParamLemmas.
 Local Open Scope list_scope.
@@ -24,48 +26,49 @@ Definition C06_full_statement : Prop :=
     | _, _ => False
     end.
 
-(* ---- refutation: UPDATE t SET a = None ---- *)
-Definition w_none : stmt := SUpdate "t" [("a", SVal (TValNone None))] WNone.
+(* ---- refutation: a Decimal in WHERE ---- *)
+Definition w_decimal : stmt :=
+  SSelect (Sel false [TField "a" None None] (SrcT "t" None) [] (WSome (WT (TBasic CGt (TField "b" None None) (TValRaw "1.50" None) None)))
+               [] WNone [] None None).
+Definition no_float (s : string) : bool := false.
 
 Theorem C06_refuted : ~ C06_full_statement.
 Proof.
-  intros H. specialize (H (fun _ => false) Qmark true w_none). vm_compute in H.
+  intros H. specialize (H no_float Qmark true w_decimal). vm_compute in H.
   destruct H as [_ [_ [H _]]]. discriminate H.
 Qed.
 Print Assumptions C06_refuted.
 
-(* the witnesses, spelled out *)
-Definition w_decimal : stmt :=
-  SSelect (Sel false [TField "a" None None] (SrcT "t" None) [] (WSome (WT (TBasic CGt (TField "b" None None) (TValRaw "1.50" None) None)))
-               [] WNone [] None None).
-Definition w_wrapped : stmt := SUpdate "t" [("a", SWrap (TArith OAdd (TField "b" None None) (TValI 1 None) None))] WNone.
 Definition w_collision : term :=
   TCplx BAnd (TBasic CEq (TField "a" None None) (TParam ":1") None) (TBasic CEq (TField "b" None None) (TValI 5 None) None) None.
-Definition no_float (s : string) : bool := false.
 
 Theorem C06_refutation_witnesses :
-  (* None: the text says ? and the collector holds the STRING "null"; the inline text has the keyword *)
-  (render_stmt no_float (Some Qmark) true w_none [] = Ok ([KTxt "UPDATE ""t"""; KTxt " SET "; KTxt """a""="; KAuto 0 "?"], [("", VStr "null")])
-   /\ render_stmt no_float None true w_none [] = Ok ([KTxt "UPDATE ""t"""; KTxt " SET "; KTxt """a""="; KLit LNull "null"], []))
-  (* Decimal: collected as the string "1.50", inline a number *)
-  /\ (exists tp ti, render_stmt no_float (Some Named) false w_decimal [] = Ok (tp, [("param1", VStr "1.50")])
-                 /\ render_stmt no_float None false w_decimal [] = Ok (ti, [])
-                 /\ subst no_float Named [("param1", VStr "1.50")] tp <> Some (map (by_value no_float) ti))
-  (* set(field, expression): the SQL text of the expression is collected as a string *)
-  /\ (exists ti, render_stmt no_float (Some Numeric) false w_wrapped [] =
-                   Ok ([KTxt "UPDATE ""t"""; KTxt " SET "; KTxt """a""="; KAuto 0 ":1"], [("", VStr """b""+1")])
-              /\ render_stmt no_float None false w_wrapped [] = Ok (ti, []) /\ List.length ti = 6)
-  (* NumericParameter next to an explicit Parameter(":1"): two placeholders spelled :1, one of them the collector's *)
+  (* Decimal: collected as the STRING "1.50", inline a number *)
+  (exists tp ti, render_stmt no_float (Some Named) false w_decimal [] = Ok (tp, [("param1", VStr "1.50")])
+              /\ render_stmt no_float None false w_decimal [] = Ok (ti, [])
+              /\ subst no_float Named [("param1", VStr "1.50")] tp <> Some (map (by_value no_float) ti))
+  (* NumericParameter next to an explicit Parameter(":1"): two placeholders spelled :1, one of them the collector's
+     (the token view tells them apart, the text does not) *)
   /\ render_t no_float (Some Numeric) str_ctx w_collision [] =
        Ok ([KTxt """a"""; KTxt "="; KExp ":1"; KTxt " AND "; KTxt """b"""; KTxt "="; KAuto 0 ":1"], [("", VInt 5)]).
 Proof.
-  split; [split; vm_compute; reflexivity|]. split; [|split; [|vm_compute; reflexivity]].
-  - eexists. eexists. split; [vm_compute; reflexivity|]. split; [vm_compute; reflexivity|]. vm_compute. discriminate.
-  - eexists. split; [vm_compute; reflexivity|]. split; vm_compute; reflexivity.
+  split; [|vm_compute; reflexivity].
+  eexists. eexists. split; [vm_compute; reflexivity|]. split; [vm_compute; reflexivity|]. vm_compute. discriminate.
 Qed.
 Print Assumptions C06_refutation_witnesses.
 
-(* ---- what holds for ALL statements whose SET values are constants (and whose literals have non-empty text) ---- *)
+(* behaviour after the repairs 3c2a8b6 / c10cc28 (regression documentation) *)
+Definition w_none : stmt := SUpdate "t" [("a", SVal (TValNone None))] WNone.
+Definition w_wrapped : stmt := SUpdate "t" [("a", SWrap (TArith OAdd (TField "b" None None) (TValI 1 None) None))] WNone.
+Example C06_repaired_behaviour :
+  (* set(a, None): a placeholder, and the collector holds None *)
+  render_stmt no_float (Some Qmark) true w_none [] = Ok ([KTxt "UPDATE ""t"""; KTxt " SET "; KTxt """a""="; KAuto 0 "?"], [("", VNone)])
+  (* set(a, b+1): the expression is rendered, its constant collected *)
+  /\ render_stmt no_float (Some Numeric) false w_wrapped [] =
+       Ok ([KTxt "UPDATE ""t"""; KTxt " SET "; KTxt """a""="; KTxt """b"""; KTxt "+"; KAuto 0 ":1"], [("", VInt 1)]).
+Proof. split; vm_compute; reflexivity. Qed.
+
+(* ---- what holds for ALL statements and ALL value types (whose literals have non-empty text) ---- *)
 Definition any_lit (_ : lit) : bool := true.
 
 (* same exceptions; counts / order / naming / distinct keys; token-for-token agreement where a placeholder stands
@@ -87,7 +90,18 @@ Proof.
 Qed.
 Print Assumptions C06_bookkeeping_holds.
 
-(* ---- the fragment: every collected literal is a str / int / bool / float (no None, no Decimal-like payload) ---- *)
+(* ---- the value guard: every collected literal is a str / int / bool / float / None, i.e. no raw numeric payload
+        that is not a float (Decimal) is collected; and literal texts are non-empty ---- *)
+Definition C06_value_guard (isf : string -> bool) (sqlite : bool) (s : stmt) : bool := stmt_ok (lit_exact isf) sqlite s.
+
+Definition C06_guarded_statement : Prop :=
+  forall (isf : string -> bool) (sty : style) (sqlite : bool) (s : stmt), C06_value_guard isf sqlite s = true ->
+    match render_stmt isf None sqlite s [], render_stmt isf (Some sty) sqlite s [] with
+    | Ok (ti, _), Ok (tp, st') => C06_claims isf sty ti tp st'
+    | Err e, Err e' => e = e'
+    | _, _ => False
+    end.
+
 Theorem C06_on_fragment :
   forall isf sty sqlite (s : stmt), stmt_ok (lit_exact isf) sqlite s = true ->
     match render_stmt isf None sqlite s [], render_stmt isf (Some sty) sqlite s [] with
@@ -103,6 +117,14 @@ Proof.
   - apply aligned_subst, A.
 Qed.
 Print Assumptions C06_on_fragment.
+
+Theorem C06_holds : C06_guarded_statement.
+Proof. exact C06_on_fragment. Qed.
+Print Assumptions C06_holds.
+
+(* the guard is exactly what separates the two: a statement outside it that violates the claims is w_decimal *)
+Example C06_guard_is_needed : C06_value_guard no_float false w_decimal = false.
+Proof. vm_compute. reflexivity. Qed.
 
 (* the same for a bare term under any keyword context *)
 Theorem C06_terms_on_fragment :
